@@ -768,7 +768,7 @@ func (c *Client) Authenticate(username, password string) (User, error) {
 	c.mu.RUnlock()
 	if ok {
 		// verify the password using the cached salt and hash
-		if bytes.Equal(c.hashWithSalt(au.salt, password), au.hash) {
+		if au.bhash == userInfo.Hash && bytes.Equal(c.hashWithSalt(au.salt, password), au.hash) {
 			return userInfo, nil
 		}
 
